@@ -401,6 +401,10 @@ def lowlimb(ctx, config="all"):
                         outs.append(bj)
                 if outs and all(observer_at(bj, p) for bj in outs):
                     ok = "every use of the read in the returned value is dominated by " + observer_at(outs[0], p)
+                elif not outs and not any(t3["t"] == "call" and any(a.get("o") in ("copy", "move") and a["l"] in fw.tainted
+                                                                    for a in t3["args"])
+                                          for t3 in (v.blocks[bj]["term"] for bj in v.reachable)):
+                    ok = "the read feeds only comparisons / branch conditions, never a returned value or a call"
             if ok is None:
                 # complete by configuration: unreachable when LIMBS > idx + 1 ?
                 v_big = prog.view(b, (256, 4))
